@@ -193,4 +193,19 @@ PROPS = {
         "quick": {"budget_s": 75, "chunk": 20},
         "thorough": {"budget_s": 900, "chunk": 20, "minimise_s": 60},
     },
+    "C18": {
+        "test": "TestC18",
+        "level": "exploration",
+        "world": "B: one resolving node, scripted remote did:web servers on the simulated HTTP transport, a second real node hosting a did:web subject",
+        "rule": "each run: 3-7 did:web identifiers built from components (domain, port, path segments, mixed case, percent-encoded segment) or hostile variants "
+                "(IPv4 / IPv6 literal, user-info, encoded slash / query / fragment in the host) resolved against a scripted server behaviour (correct document, "
+                "other id, redirect to another host whose document claims the identifier, redirect to http, redirect on the same host, html content type, 500, "
+                "404); every outbound request is recorded and judged; then the node's own DID (zero requests), a DID of the other node, and deactivation. "
+                "Distinct = distinct case lists; 'measurements' counts each (shape, server behaviour) pair.",
+        "invariants": ["C18.origin", "C18.binding", "C18.local", "C18.deactivated"],
+        "assumptions": ["did:jwk / did:key purity and the DID-URL round-trip law are pure functions and are not claimed",
+                        "a redirect on the same host over https is not counted as leaving the identifier's origin"],
+        "quick": {"budget_s": 60, "chunk": 25},
+        "thorough": {"budget_s": 600, "chunk": 25, "minimise_s": 60},
+    },
 }
